@@ -3,6 +3,8 @@ package checks
 import (
 	"fmt"
 	"math/big"
+	"os"
+	"path/filepath"
 	"reflect"
 	"sort"
 	"strings"
@@ -333,6 +335,52 @@ func c11Once(c *mon.Ctx) {
 		if _, ok := t2.Get(cl.info.Name).(*toml.Tree); !ok {
 			c.V("default-config-filtered-missing|"+cl.info.Name, "single-lint registry's example configuration lacks the lint's table", cl.info.Name, nil, nil)
 		}
+	}
+	// the three loaders (string, reader, file) give the same configuration; an empty path is the empty configuration
+	for k, d := range c11Docs {
+		if k%7 != 0 {
+			continue
+		}
+		cs, errS := lint.NewConfigFromString(d.doc)
+		cr, errR := lint.NewConfig(strings.NewReader(d.doc))
+		path := filepath.Join(c.Work, fmt.Sprintf("cfg%d.toml", k))
+		_ = os.WriteFile(path, []byte(d.doc), 0o644)
+		cf, errF := lint.NewConfigFromFile(path)
+		_ = os.Remove(path)
+		c.R.Count("evaluations", 3)
+		c.R.Count("loader_comparisons", 1)
+		if (errS == nil) != (errR == nil) || (errS == nil) != (errF == nil) {
+			c.V("loaders-disagree-on-error", fmt.Sprintf("the string / reader / file loaders disagree on whether a document is acceptable: %v / %v / %v (%s)", errS, errR, errF, d.desc), "", map[string][]byte{"config.toml": []byte(d.doc)}, nil)
+			continue
+		}
+		if errS != nil {
+			continue
+		}
+		o := c11Objs[k%13]
+		var snaps []mon.Snap
+		for _, cfg := range []lint.Configuration{cs, cr, cf} {
+			r := c11All()
+			r.SetConfiguration(cfg)
+			if rs, pv, _ := o.Lint(r); pv == nil && rs != nil {
+				snaps = append(snaps, mon.SnapOf(rs))
+			}
+		}
+		if len(snaps) == 3 && (len(mon.Diff(snaps[0], snaps[1], false, false)) > 0 || len(mon.Diff(snaps[0], snaps[2], false, false)) > 0) {
+			c.V("loaders-disagree", "the same document loaded from a string, a reader and a file gives different results ("+d.desc+")", "", map[string][]byte{"config.toml": []byte(d.doc)}, nil)
+		}
+	}
+	if cfg, err := lint.NewConfigFromFile(""); err != nil {
+		c.V("empty-path-not-empty-config", "NewConfigFromFile(\"\") fails: "+err.Error(), "", nil, nil)
+	} else {
+		r := c11All()
+		r.SetConfiguration(cfg)
+		o := c11Objs[0]
+		if bs, _, _ := o.Lint(g); bs != nil {
+			c11Judge(c, o, r, "", mon.SnapOf(bs), "NewConfigFromFile(\"\")")
+		}
+	}
+	if _, err := lint.NewConfigFromFile(filepath.Join(c.Work, "does-not-exist.toml")); err == nil {
+		c.V("missing-file-accepted", "NewConfigFromFile on a missing file returns no error", "", nil, nil)
 	}
 	// (a)+(b): equivalent-to-nothing documents, on every object
 	neutral := []cfgDoc{{"empty", ""}, {"default", string(def)}, {"unrelated", docOf(nil, true)}, {"comment-only", "# nothing\n"}}
